@@ -29,6 +29,15 @@ CHECKS = {
     "C08": ("model_checking", "HybridLoads.tla + Calendar.tla (TLC) + replay (B1)",
             "Month-end breakpoints, horizon end, yearly repetition and strict monotonicity unless windows overlap are invariants over all horizons in the configuration; the calendar helpers are proved equal to the reference calendar for months 1..360 and replayed against the real helpers.",
             "non-leap single-year load list (the only mode the manager uses)", "5/C08"),
+    "C03": ("model_checking", "Domains.tla symbolic generators (TLC) + list-for-list replay of the real generators + random real-valued lots",
+            "Each generator is transcribed as an exact-rational loop; TLC checks extents, spacing and ordering of every candidate on every admissible integer lot of the configuration, and the real generators are compared candidate by candidate (count, extents from real coordinates, minimum pair distance measured with a KD-tree).",
+            "lots where a float ceil/floor/ratio comparison differs from exact arithmetic are judged by the property predicates only (either rounding is legal); bi-rectangle row-count rounding is the listed finding F15", "5/C03"),
+    "C04": ("model_checking", "Polygon.tla land-constraint filter (TLC) + replay of remove_cutout + end-to-end polygonal_land_constraint on random outlines",
+            "The kept set of all 49 half-lattice points is computed in the model for every simple lattice polygon x each no-go polygon and compared with remove_cutout; the end-to-end generator is judged with the exact rational classifier bound to the specification.",
+            "lattice scaled by 5 m so no off-edge lattice point falls in the 0.01 tolerance band; random outlines are star-shaped simple polygons", "5/C04"),
+    "C16": ("model_checking", "Polygon.tla exhaustive classification (TLC, two independent rays) + replay of point_polygon_check on all rotations/orientations",
+            "Exhaustive over all simple polygons with 3..5 (thorough: 6) vertices on the 4x4 lattice and all 49 half-lattice points: the crossing-number classification of the model (guarded by an independent vertical-ray classification) is compared with the real function for every vertex rotation and both orientations.",
+            "random real-valued polygons are judged only outside the tolerance band", "5/C16"),
 }
 
 NOT_APPLICABLE = [
